@@ -1,6 +1,7 @@
 import ChythonModel.Py.Wire
 import ChythonModel.Model.Standardize
 import ChythonModel.Model.C14Charges
+import ChythonModel.Model.C14Resonance
 /-!
 Line-protocol driver for C14. One request per line, all arguments are ints.
 
@@ -20,6 +21,8 @@ Line-protocol driver for C14. One request per line, all arguments are ints.
                                              `nothing|exact|choice | donors.. | acceptors.. | changed.. | mol` / `crash`
   CHG lmol norders (k (id rank)^k)^norders → `standardize_charges(prepare_molecule=False)`; the `atoms_order` dicts the real call
                                              computed are inputs: `ok | changed.. | mol` / `need-order` / `crash`
+  RES lmol nrad rad.. nent ent..           → `fix_resonance(logging=True)`; `list(rads)`, `list(entries)` of the real sets (slot
+                                             order = pop order) are inputs: `ok | hs.. | mol` / `crash`
   log    := entries `r kind k id^k` separated by `;`  (kind 0 = applied, 1 = bad charge)
 -/
 open ChythonModel.Py ChythonModel.Model ChythonModel.Model.Std ChythonModel.Gen.Rules
@@ -144,6 +147,14 @@ def handleChg : P String := do
   | some .needOrder => return "need-order"
   | some (.done m ch) => return s!"ok | {showNats ch} | {m.render}"
 
+def handleRes : P String := do
+  let lm ← pLMol
+  let ro ← pList
+  let eo ← pList
+  match fixResonance lm.mol lm.labels ro eo with
+  | none => return "crash"
+  | some (m, hs) => return s!"ok | {showNats hs} | {m.render}"
+
 def handle (line : String) : String :=
   match words line with
   | op :: ws =>
@@ -158,6 +169,7 @@ def handle (line : String) : String :=
       | "NEUT" => run handleNeut xs
       | "NEUTX" => run handleNeutX xs
       | "CHG" => run handleChg xs
+      | "RES" => run handleRes xs
       | _ => "malformed op"
   | [] => "malformed empty"
 
